@@ -1,7 +1,9 @@
 """C08 - driver-event broadcast: events arrive in order, intact; any loss is reported."""
 import hashlib
 import json
+import os
 
+from vlib import core
 from vlib.term import z, to_coq
 
 ID = 'C08'
@@ -23,6 +25,23 @@ ASSUMPTIONS = [
 ]
 
 LEGAL = list(range(3841, 3851)) + list(range(1, 15))
+
+_VERSION = {}
+
+
+def version():
+    """Which receive_next the repository under test has (K1, read from the source on every run; a wrong answer makes every
+    scheduled trace differ): 'W64R' = fixes/C08-receive-next-revalidate.diff applied (the header words are validated before they
+    are used: two do_validate calls in receive_next), 'W64' = the code without it."""
+    if 'w' not in _VERSION:
+        path = os.path.join(core.REPO, 'src', 'concurrent', 'broadcast', 'broadcast_receiver.rs')
+        try:
+            src = open(path).read()
+            body = src[src.index('pub fn receive_next'):src.index('pub fn validate')]
+            _VERSION['w'] = 'W64R' if body.count('self.do_validate(') >= 2 else 'W64'
+        except (OSError, ValueError):
+            _VERSION['w'] = 'W64'
+    return _VERSION['w']
 
 
 def mode_c(mode):
@@ -357,12 +376,12 @@ def _pre_coq(c):
 
 def model_expr(c, mode):
     if c['kind'] == 'seq':
-        return 'map show_obs (run_history %s W64 true %s %s %s %s)' % (mode_c(mode), z(c['cap']), z(c['c0']), _pre_coq(c), _ops_coq(c))
+        return 'map show_obs (run_history %s %s true %s %s %s %s)' % (mode_c(mode), version(), z(c['cap']), z(c['c0']), _pre_coq(c), _ops_coq(c))
     if c['kind'] == 'lag':
-        return 'map show_obs (jrun_history %s W64 true %s %s %s %s)' % (mode_c(mode), z(c['cap']), z(c['c0']), _pre_coq(c), _jops_coq(c))
+        return 'map show_obs (jrun_history %s %s true %s %s %s %s)' % (mode_c(mode), version(), z(c['cap']), z(c['c0']), _pre_coq(c), _jops_coq(c))
     if c['kind'] == 'conc':
-        return 'show_conc %s (run_conc %s W64 true %s %s %s %s %d%%nat %s)' % (
-            z(c['cap']), mode_c(mode), z(c['cap']), z(c['c0']), _msgs_coq(c['pre']), _msgs_coq(c['msgs']), c['nrecv'],
+        return 'show_conc %s (run_conc %s %s true %s %s %s %s %d%%nat %s)' % (
+            z(c['cap']), mode_c(mode), version(), z(c['cap']), z(c['c0']), _msgs_coq(c['pre']), _msgs_coq(c['msgs']), c['nrecv'],
             '[' + '; '.join(str(t) for t in c['sched']) + ']')
     raise ValueError(c)
 
@@ -393,10 +412,9 @@ def known_class(c, mode, obs):
         return None
     key = (json.dumps(c, sort_keys=True), mode)
     if key not in _KC_CACHE:
-        from vlib import core
-        fuel = 11 * (len(c['msgs']) + c['nrecv']) + 11
-        e = ('g_ok (grun %s %s true (ginit %s %s %s %s %d%%nat) (%s ++ repeat 0 %d%%nat ++ repeat 1 %d%%nat))' % (
-            z(c['cap']), mode_c(mode), z(c['cap']), z(c['c0']), _msgs_coq(c['pre']), _msgs_coq(c['msgs']), c['nrecv'],
+        fuel = 13 * (len(c['msgs']) + c['nrecv']) + 13
+        e = ('g_ok (grun %s %s true %s (ginit %s %s %s %s %d%%nat) (%s ++ repeat 0 %d%%nat ++ repeat 1 %d%%nat))' % (
+            z(c['cap']), mode_c(mode), version(), z(c['cap']), z(c['c0']), _msgs_coq(c['pre']), _msgs_coq(c['msgs']), c['nrecv'],
             '[' + '; '.join(str(t) for t in c['sched']) + ']', fuel, fuel))
         tag = 'C08_kc_%s' % hashlib.sha1(key[0].encode()).hexdigest()[:12]
         v = core.coq_eval(tag, IMPORTS + ' Require Import V.Proofs.BroadcastThreadsProofs.', [e])
